@@ -27,7 +27,7 @@ fn matches(e: &str, want: &J, got: &J, ids: &HashMap<u64, u64>) -> bool {
             mapped == as_set(g)
         }
         "spp" => g.is_u64(),
-        "cend" | "bw" | "dur" | "open" | "rename" | "spe" | "spreste" | "sprestp" | "abort" => true,
+        "cend" | "bw" | "br" | "dur" | "open" | "rename" | "spe" | "spreste" | "sprestp" | "abort" => true,
         _ => w == g,
     }
 }
